@@ -38,7 +38,7 @@ def main():
     head = sh("git -C /repo rev-parse --short HEAD").stdout.strip()
     try:
         for sid in ids:
-            prop = [x for x in sid.split("-") if x.startswith("C") and x[1:].isdigit()][0]
+            prop = ([x for x in sid.split("-") if x.startswith("C") and x[1:].isdigit()] or [json.load(open(os.path.join(root, sid, "meta.json")))["property"][:3]])[0]
             patch = os.path.join(root, sid, "patch.diff")
             sh(f"git -C {wt} checkout -- . && git -C {wt} clean -fdq")
             r = sh(f"git -C {wt} apply {patch}")
